@@ -17,7 +17,13 @@ type Key = (String, usize, usize, usize, String, String, String);
 
 pub fn generate(r: &mut Rng, tier: Tier) -> Scenario {
     let t2 = r.chance(1, 8);
-    let (mut world, g, c, _) = super::draw_world(r, |_g, c| {
+    let multiline = r.chance(1, 4);
+    let (mut world, g, c, _) = super::draw_world(r, |g, c| {
+        // statements that span lines, so that a cut can fall inside one
+        g.multiline = multiline;
+        if multiline {
+            g.data = true;
+        }
         if c.includes == 0 {
             c.includes = 1;
         }
@@ -254,7 +260,12 @@ fn symlinked_directory(world: &mut World, r: &mut Rng) -> bool {
 fn insert_line(text: &str, line: &str, r: &mut Rng) -> String {
     let trailing = text.ends_with('\n') || text.is_empty();
     let mut ls: Vec<String> = split_lines(text).iter().map(|s| (*s).to_string()).collect();
-    let at = r.usize(ls.len() + 1);
+    // (not in front of a line that continues the statement above it: a directive is a statement)
+    let continues = world::statement_continues(&ls);
+    let mut at = r.usize(ls.len() + 1);
+    while at < ls.len() && continues[at] {
+        at += 1;
+    }
     ls.insert(at, line.to_string());
     let mut out = ls.join("\n");
     if trailing {
@@ -340,13 +351,23 @@ fn is_unterminated_tail(world: &World, k: &Key) -> bool {
     if k.4 != "Error" || !PARSE_ERROR_TITLES.iter().any(|t| k.5.starts_with(t)) {
         return false;
     }
-    world.files.get(&k.0).is_some_and(|t| {
-        if t.ends_with('\n') || t.is_empty() {
+    let unterminated = |t: &str| !(t.ends_with('\n') || t.is_empty());
+    let in_the_file_itself = world.files.get(&k.0).is_some_and(|t| {
+        if !unterminated(t) {
             return false;
         }
         let last = split_lines(t).len().saturating_sub(1);
         k.1 == last || k.1 == last + 1
-    })
+    });
+    // ... or on the rest of the line that holds the directive: the statement goes on there (the
+    // newline that ends it is the one after the directive)
+    let on_the_directive_line = world.files.get(&k.0).is_some_and(|t| {
+        split_lines(t).iter().enumerate().any(|(i, l)| {
+            (k.1 == i || k.1 == i + 1)
+                && crate::world::parse_include(l).and_then(|rel| resolve(dir_of(&k.0), rel)).and_then(|target| world.files.get(&target)).is_some_and(|tt| unterminated(tt))
+        })
+    });
+    in_the_file_itself || on_the_directive_line
 }
 
 /// Files pasted more than once: identical items of the two copies are one item for the user
@@ -555,13 +576,22 @@ pub fn check(scn: &Scenario, stats: &mut Stats) -> Vec<Violation> {
             return out;
         }
     }
+    if !failed.is_empty() && scn.world.files.values().any(|t| crate::world::statement_continues(&split_lines(t)).iter().any(|c| *c)) {
+        // The model writes an empty line for a directive whose include fails. The analyzer still
+        // has a statement there (it carries the error), and a statement ends a data list that was
+        // going on over it: what the continuation lines below then are is not decided by the
+        // property. Every other clause has been checked; equality is not demanded for this world.
+        stats.inc("excluded:failed-include-among-multi-line-statements(equality only)");
+        return out;
+    }
     if got.iter().chain(want.iter()).any(|k| is_unterminated_tail(&scn.world, k)) {
         // the statement on such a tail is reported at the end of the file in the split program and
         // on the newline that follows the pasted text in the single file: the position is line
-        // accounting (C07/C09), but the items themselves must be the same on both sides
+        // accounting (C07/C09; the newline that ends the statement is the one after the directive, in the
+        // including file), but the items themselves must be the same on both sides
         stats.inc("probe:unterminated_tail");
         let split_tail = |v: &mut Vec<Key>| -> Vec<String> {
-            let mut t: Vec<String> = v.iter().filter(|k| is_unterminated_tail(&scn.world, k)).map(|k| format!("{}: {}", k.0, k.5)).collect();
+            let mut t: Vec<String> = v.iter().filter(|k| is_unterminated_tail(&scn.world, k)).map(|k| k.5.clone()).collect();
             v.retain(|k| !is_unterminated_tail(&scn.world, k));
             t.sort();
             // a file pasted twice reports the same item once (see included_more_than_once)
@@ -824,13 +854,22 @@ fn check_t2(scn: &Scenario, stats: &mut Stats) -> Vec<Violation> {
             }
         }
     }
+    if !failed.is_empty() && scn.world.files.values().any(|t| crate::world::statement_continues(&split_lines(t)).iter().any(|c| *c)) {
+        // The model writes an empty line for a directive whose include fails. The analyzer still
+        // has a statement there (it carries the error), and a statement ends a data list that was
+        // going on over it: what the continuation lines below then are is not decided by the
+        // property. Every other clause has been checked; equality is not demanded for this world.
+        stats.inc("excluded:failed-include-among-multi-line-statements(equality only)");
+        return out;
+    }
     if got.iter().chain(want.iter()).any(|k| is_unterminated_tail(&scn.world, k)) {
         // the statement on such a tail is reported at the end of the file in the split program and
         // on the newline that follows the pasted text in the single file: the position is line
-        // accounting (C07/C09), but the items themselves must be the same on both sides
+        // accounting (C07/C09; the newline that ends the statement is the one after the directive, in the
+        // including file), but the items themselves must be the same on both sides
         stats.inc("probe:unterminated_tail");
         let split_tail = |v: &mut Vec<Key>| -> Vec<String> {
-            let mut t: Vec<String> = v.iter().filter(|k| is_unterminated_tail(&scn.world, k)).map(|k| format!("{}: {}", k.0, k.5)).collect();
+            let mut t: Vec<String> = v.iter().filter(|k| is_unterminated_tail(&scn.world, k)).map(|k| k.5.clone()).collect();
             v.retain(|k| !is_unterminated_tail(&scn.world, k));
             t.sort();
             // a file pasted twice reports the same item once (see included_more_than_once)
